@@ -209,24 +209,28 @@ theorem not_from_undef_spec (env : Env) (d : Data) :
   | none => simp [Val.bool, Val.truthy, Atom.truthy]
   | some p => cases p <;> simp [Val.bool, Val.truthy, Atom.truthy, Val.isUndef]
 
-/-! ## Delta -/
+/-! ## Delta
 
-/-- `delta_spec`: for every sequence of numbers `vs` (carried as item `value` of otherwise
-    arbitrary event data) and every `δ`, a fresh `Delta(δ)` answers each event with a bool, and
-    the value at any position passes iff nothing has passed before it (the first), or it
-    differs from the LAST PASSED value before it by at least `δ` (|v − w| ≥ δ written as
-    `δ ≤ v − w ∨ δ ≤ w − v`) -/
-theorem delta_spec (env : Env) (δ : Rat) (mk : Rat → Data)
-    (hmk : ∀ q, ∃ k, (mk q).get? "value" = some (.atom (.num q k))) (vs : List Rat) :
+The numbers are `XNum`: exact rationals (Python ints, bools, finite floats) and the floats +inf, -inf,
+NaN with Python's rules (a difference with a NaN, and inf − inf, is NaN; every comparison with NaN is
+false).  `|v − w| ≥ δ` is written `XNum.le δ (v.sub w) ∨ XNum.le δ (w.sub v)`: never true when the
+difference is NaN. -/
+
+/-- `delta_spec`: for every sequence of numbers `vs` – finite or not – (carried as item `value` of
+    otherwise arbitrary event data) and every `δ`, a fresh `Delta(δ)` answers each event with a bool,
+    and the value at any position passes iff nothing has passed before it (the first), or it differs
+    from the LAST PASSED value before it by at least `δ` -/
+theorem delta_spec (env : Env) (δ : XNum) (mk : XNum → Data)
+    (hmk : ∀ x, ∃ v, (mk x).get? "value" = some v ∧ xnumOf? v = some x) (vs : List XNum) :
     ∃ flags : List Bool, flags.length = vs.length ∧
       callSeq env (Filter.mkDelta δ) (vs.map mk) = flags.map (fun b => FRes.other (Val.bool b)) ∧
       ∀ pre v b post, vs.zip flags = pre ++ (v, b) :: post →
         (b = true ↔
           (∀ p ∈ pre, p.2 = false) ∨
           ∃ pre1 w pre2, pre = pre1 ++ (w, true) :: pre2 ∧ (∀ p ∈ pre2, p.2 = false) ∧
-            (δ ≤ v - w ∨ δ ≤ w - v)) := by
+            (XNum.le δ (v.sub w) = true ∨ XNum.le δ (w.sub v) = true)) := by
   refine ⟨deltaFlags δ none vs, deltaFlags_length δ none vs,
-    callSeq_delta env δ mk hmk .undef none trivial vs, ?_⟩
+    callSeq_delta env δ mk hmk .undef none rfl vs, ?_⟩
   intro pre v b post hs
   have key := deltaFlags_spec δ none vs pre v b post hs
   rw [key]
@@ -247,20 +251,58 @@ theorem delta_spec (env : Env) (δ : Rat) (mk : Rat → Data)
         exact hc
 
 /-- corollary: any two consecutive passed values differ by at least `δ` -/
-theorem delta_consecutive_passed_differ (env : Env) (δ : Rat) (mk : Rat → Data)
-    (hmk : ∀ q, ∃ k, (mk q).get? "value" = some (.atom (.num q k))) (vs : List Rat) :
+theorem delta_consecutive_passed_differ (env : Env) (δ : XNum) (mk : XNum → Data)
+    (hmk : ∀ x, ∃ v, (mk x).get? "value" = some v ∧ xnumOf? v = some x) (vs : List XNum) :
     ∃ flags : List Bool, flags.length = vs.length ∧
       callSeq env (Filter.mkDelta δ) (vs.map mk) = flags.map (fun b => FRes.other (Val.bool b)) ∧
       ∀ l1 a c l2,
         (vs.zip flags).filterMap (fun p => if p.2 then some p.1 else none) = l1 ++ a :: c :: l2 →
-        (δ ≤ c - a ∨ δ ≤ a - c) :=
+        (XNum.le δ (c.sub a) = true ∨ XNum.le δ (a.sub c) = true) :=
   ⟨deltaFlags δ none vs, deltaFlags_length δ none vs,
-    callSeq_delta env δ mk hmk .undef none trivial vs,
+    callSeq_delta env δ mk hmk .undef none rfl vs,
     fun l1 a c l2 h => chainFrom_adjacent δ none _ l1 l2 a c (deltaFlags_chain δ none vs) h⟩
+
+/-- `delta_rejects_nan_and_keeps_last`: once a value has passed, a NaN value is REJECTED whatever `δ`
+    is (|last − NaN| = NaN is not ≥ δ) and the filter keeps the value it remembered: what follows is
+    judged against the last value that really passed.  The same for a difference inf − inf. -/
+theorem delta_rejects_nan_and_keeps_last (env : Env) (δ : XNum) (last v : Val) (l x : XNum) (d : Data)
+    (hu : last.isUndef = false) (hl : xnumOf? last = some l) (hv : d.get? "value" = some v)
+    (hx : xnumOf? v = some x) (hnan : l.sub x = .nan) :
+    ((Filter.delta δ last).call env d).ret = .other (Val.bool false) ∧
+    ((Filter.delta δ last).call env d).filter = .delta δ last ∧
+    ((Filter.delta δ last).call env d).data = d := by
+  have hle : XNum.le δ (XNum.abs XNum.nan) = false := by cases δ <;> rfl
+  simp [Filter.call, deltaCall, hv, hu, hl, hx, hnan, hle]
+
+/-- a NaN value makes the difference NaN, and so does +inf after +inf, −inf after −inf -/
+theorem delta_nan_differences (l : XNum) :
+    l.sub .nan = .nan ∧ XNum.nan.sub l = .nan ∧ XNum.pinf.sub .pinf = .nan ∧ XNum.ninf.sub .ninf = .nan := by
+  cases l <;> exact ⟨rfl, rfl, rfl, rfl⟩
+
+/-- in a sequence: a NaN that is not the first value to pass never passes -/
+theorem delta_nan_passes_only_first (env : Env) (δ : XNum) (mk : XNum → Data)
+    (hmk : ∀ x, ∃ v, (mk x).get? "value" = some v ∧ xnumOf? v = some x) (vs : List XNum) :
+    ∃ flags : List Bool, flags.length = vs.length ∧
+      callSeq env (Filter.mkDelta δ) (vs.map mk) = flags.map (fun b => FRes.other (Val.bool b)) ∧
+      ∀ pre b post, vs.zip flags = pre ++ (XNum.nan, b) :: post → (∃ p ∈ pre, p.2 = true) → b = false := by
+  refine ⟨deltaFlags δ none vs, deltaFlags_length δ none vs,
+    callSeq_delta env δ mk hmk .undef none rfl vs, ?_⟩
+  intro pre b post hs ⟨p, hp, hpt⟩
+  have key := deltaFlags_spec δ none vs pre .nan b post hs
+  cases hlp : lastPassed none pre with
+  | none =>
+    have := (lastPassed_none_iff pre).mp hlp p hp
+    rw [hpt] at this; cases this
+  | some w =>
+    rw [hlp] at key
+    have h1 : XNum.le δ (XNum.nan.sub w) = false := by cases δ <;> cases w <;> rfl
+    have h2 : XNum.le δ (w.sub .nan) = false := by cases δ <;> cases w <;> rfl
+    simp only [h1, h2, Bool.false_eq_true, or_self, iff_false] at key
+    simpa using key
 
 /-- what Delta does outside the numbers: a missing `value` is a KeyError, a non-number
     compared with the remembered value is a TypeError, and neither changes the filter -/
-theorem delta_errors_keep_state (env : Env) (δ : Rat) (last : Val) (d : Data) (e : Err)
+theorem delta_errors_keep_state (env : Env) (δ : XNum) (last : Val) (d : Data) (e : Err)
     (h : ((Filter.delta δ last).call env d).ret = .raise e) :
     ((Filter.delta δ last).call env d).filter = .delta δ last := by
   simp only [Filter.call, deltaCall] at *
@@ -272,15 +314,15 @@ theorem delta_errors_keep_state (env : Env) (δ : Rat) (last : Val) (d : Data) (
     by_cases hu : last.isUndef = true
     · simp [hu] at h
     · simp only [hu, Bool.false_eq_true, if_false] at h ⊢
-      cases hl : numOf? last with
+      cases hl : xnumOf? last with
       | none => rfl
       | some l =>
-        cases hq : numOf? v with
+        cases hq : xnumOf? v with
         | none => rfl
         | some q =>
           rw [hl, hq] at h
           simp only at h
-          by_cases hc : δ ≤ absQ (l - q) <;> simp [hc] at h
+          by_cases hc : XNum.le δ (XNum.abs (l.sub q)) = true <;> simp [hc] at h
 
 /-! ## IfOutput, IfNotIitialized (documented as NotIfInitialized) -/
 
@@ -460,14 +502,38 @@ example :
 
 /-- Delta(2) on 0, 1, 2, 3, 4: passes 0, 2, 4 – 3 is compared with 2 (last passed), not with 2.x -/
 example :
-    callSeq (fun _ => .undef) (Filter.mkDelta 2)
+    callSeq (fun _ => .undef) (Filter.mkDelta (.fin 2))
       ([0, 1, 2, 3, 4].map fun q => [("value", Val.flt q)])
       = [true, false, true, false, true].map (fun b => FRes.other (Val.bool b)) := by
   decide +kernel
 
-/-- the hypothesis of `delta_spec` is satisfiable -/
-example : ∀ q : Rat, ∃ k, (Data.get? [("value", Val.flt q)] "value") = some (.atom (.num q k)) :=
-  fun q => ⟨.float, by simp [get?_cons, Val.flt]⟩
+/-- a NaN in the middle: Delta(1) on 0, 1.5, NaN, 1.9, +inf, +inf, 2.5 passes 0, 1.5, +inf – the NaN is
+    rejected, 1.9 is judged against 1.5 (not against the NaN), the second +inf is rejected (inf − inf is
+    NaN) and 2.5 is judged against +inf -/
+example :
+    callSeq (fun _ => .undef) (Filter.mkDelta (.fin 1))
+      ([XNum.fin 0, .fin (3 / 2), .nan, .fin (19 / 10), .pinf, .pinf, .fin (5 / 2)].map
+        fun x => [("value", x.toVal)])
+      = [true, true, false, false, true, false, true].map (fun b => FRes.other (Val.bool b)) := by
+  decide +kernel
+
+/-- … and a NaN that comes FIRST passes and then nothing passes any more (every difference is NaN) -/
+example :
+    callSeq (fun _ => .undef) (Filter.mkDelta (.fin 0))
+      ([XNum.nan, .fin 5, .nan, .pinf].map fun x => [("value", x.toVal)])
+      = [true, false, false, false].map (fun b => FRes.other (Val.bool b)) := by
+  decide +kernel
+
+/-- the hypothesis of `delta_spec` is satisfiable (all four kinds of numbers) -/
+example : ∀ x : XNum, ∃ v, (Data.get? [("value", x.toVal)] "value") = some v ∧ xnumOf? v = some x := by
+  intro x
+  refine ⟨x.toVal, by simp [get?_cons], ?_⟩
+  cases x <;> first | rfl | decide
+
+/-- the hypotheses of `delta_rejects_nan_and_keeps_last` -/
+example : (Val.flt 3).isUndef = false ∧ xnumOf? (Val.flt 3) = some (.fin 3) ∧
+    Data.get? [("value", nanVal)] "value" = some nanVal ∧ xnumOf? nanVal = some .nan ∧
+    (XNum.fin 3).sub .nan = .nan := by decide +kernel
 
 /-- hypotheses of `modify_reject_delete` -/
 example : chain (fun _ => .undef) [.add [("a", Val.int 0)]] [] = .ok [("a", Val.int 0)] ∧
@@ -581,7 +647,7 @@ theorem translated_filters_edge_defaults_is_model :
 
 /-- `Delta.__init__`: the new object remembers `delta` and has not passed anything yet (`_last = UNDEF`):
     it IS the model's fresh Delta filter -/
-theorem translated_filters_delta_init_is_model (δ : Rat) :
+theorem translated_filters_delta_init_is_model (δ : XNum) :
     Gen.TrFo.deltaInit δ = (δ, Val.undef) ∧
     Filter.delta (Gen.TrFo.deltaInit δ).1 (Gen.TrFo.deltaInit δ).2 = Filter.mkDelta δ := ⟨rfl, rfl⟩
 
@@ -600,10 +666,12 @@ theorem translated_filters_op_signatures :
 set_option linter.unusedSimpArgs false in
 /-- `Delta.__call__`, translated from the source (the item lookup, `self._last is UNDEF or
     abs(self._last - value) >= self._delta`, the assignment of `_last` only when the value passes, the
-    TypeError of a non-number), IS the model's `deltaCall`: the same remembered value and the same result -/
-theorem translated_filters_delta_call_is_model (δ : Rat) (last : Val) (d : Data) :
+    TypeError of a non-number), IS the model's `deltaCall`: the same remembered value and the same result –
+    over numbers that include +inf, −inf and NaN, where `abs(…) >= delta` and `not (abs(…) < delta)` are
+    different tests (a rewrite into the early-return form with `<` lets a NaN pass and is NOT this model) -/
+theorem translated_filters_delta_call_is_model (δ : XNum) (last : Val) (d : Data) :
     Gen.TrFo.deltaCall δ last d = Filters.deltaCall δ last d := by
-  -- written to survive equivalent formulations of the method (inverted test with `<`, swapped operands)
+  -- written to survive equivalent formulations of the method (`delta <= abs(…)`, swapped operands of `-`)
   unfold Gen.TrFo.deltaCall Filters.deltaCall
   cases d.get? "value" with
   | none => rfl
@@ -611,20 +679,15 @@ theorem translated_filters_delta_call_is_model (δ : Rat) (last : Val) (d : Data
     cases hu : last.isUndef
     all_goals simp only [Bool.false_eq_true, Bool.not_false, Bool.not_true, if_true, if_false]
     all_goals try rfl
-    rcases numOf? last with _ | l <;> rcases numOf? v with _ | q <;> try rfl
+    rcases xnumOf? last with _ | l <;> rcases xnumOf? v with _ | q <;> try rfl
     all_goals
-      simp only [c16_pyAbs_eq]
-      try simp only [c16_absQ_sub_comm q l]
+      try simp only [c16_xabs_sub_comm q l]
       first
         | done
-        | (by_cases hc : δ ≤ absQ (l - q)
-           · have hn : ¬ absQ (l - q) < δ := Rat.not_lt.mpr hc
-             simp [hc, hn]
-           · have hp : absQ (l - q) < δ := Rat.not_le.mp hc
-             simp [hc, hp])
+        | (by_cases hc : XNum.le δ (XNum.abs (l.sub q)) = true <;> simp [hc])
 
 /-- … and therefore the model's Delta filter object steps exactly like the translated method -/
-theorem translated_filters_delta_filter_is_model (env : Env) (δ : Rat) (last : Val) (d : Data) :
+theorem translated_filters_delta_filter_is_model (env : Env) (δ : XNum) (last : Val) (d : Data) :
     ((Filter.delta δ last).call env d).filter = .delta δ (Gen.TrFo.deltaCall δ last d).1 ∧
     ((Filter.delta δ last).call env d).ret = (Gen.TrFo.deltaCall δ last d).2 ∧
     ((Filter.delta δ last).call env d).data = d := by
